@@ -15,8 +15,10 @@
   operations interleaved).
 
   The models follow the code AFTER the repairs 6838ec8 (swap = hard link + one atomic os.replace;
-  the two-rename sequence survives only as the fallback when `os.link` fails) and bd7a476 (the
-  leftover .old is removed inside the try/finally that clears the flag).
+  the two-rename sequence survives only as the fallback when `os.link` fails), bd7a476 (the
+  leftover .old is removed inside the try/finally that clears the flag), dd8808d (the saved index
+  is removed before the swap) and 1d2e1d8 (copyRest re-writes the header length of a copied
+  transaction whose back pointer could not be kept).
 -/
 import Proofs.PackProto
 import Proofs.PackDisk
@@ -78,16 +80,18 @@ theorem second_pack_refused {s : State} (h : Reachable s) (hr : s.phase.running 
     including the swap — leaves the stored log, the history, the returned commits and the
     in-flight transaction unchanged, the flag cleared, the packer idle and the commit lock not
     with the packer: a committer's lock is untouched, otherwise the lock is free, a commit can
-    begin and a new pack can start. -/
+    begin and a new pack can start; the state is an ordinary reachable one again (every theorem
+    of this file keeps applying). -/
 theorem pack_failure_unchanged {s s' : State} (h : Reachable s) (hs : step s .packFail = some s') :
     s'.file = s.file ∧ s'.hist = s.hist ∧ s'.returned = s.returned ∧ s'.pending = s.pending ∧
     s'.inflight = s.inflight ∧ s'.packFlag = false ∧ s'.phase = .idle ∧
     (s.commitLock = some .committer → s'.commitLock = some .committer) ∧
     (s.commitLock ≠ some .committer → s'.commitLock = none ∧
       ∀ t, (∀ u ∈ s'.hist, u < t) → ∃ s'', step s' (.begin t) = some s'') ∧
-    (∀ T, ∃ s'', step s' (.packStart T) = some s'') := by
+    (∀ T, ∃ s'', step s' (.packStart T) = some s'') ∧ Reachable s' := by
+  have hreach := Proofs.PackProto.reachable_step h hs
   obtain ⟨_, rfl⟩ := Proofs.PackProto.packFail_eq hs
-  refine ⟨rfl, rfl, rfl, rfl, rfl, rfl, rfl, ?_, ?_, ?_⟩
+  refine ⟨rfl, rfl, rfl, rfl, rfl, rfl, rfl, ?_, ?_, ?_, hreach⟩
   · intro hc; simp [hc]
   · intro hc
     have hl : (if s.commitLock = some Owner.packer then none else s.commitLock) = none := by
@@ -247,7 +251,7 @@ def exD0 : Dir := { data := some (.db [1, 2, 3] false), old := some (.db [0] fal
                     index := some (.idx [1, 2]) }
 def exA : List Ev :=
   [.remove .old, .put .pack .junk, .vote, .put .pack .junk, .finish 4, .ret 4, .put .pack .junk,
-   .put .pack (.db [2, 3, 4] false)]
+   .put .pack (.db [2, 3, 4] false), .remove .index]
 def exB : List Ev :=
   [.vote, .remove .old, .finish 5, .ret 5, .put .indexTmp .junk, .put .indexTmp (.idx [2, 3, 4, 5]),
    .remove .index, .rename .indexTmp .index]
@@ -257,12 +261,12 @@ example (links : Bool) : WF (exRun links) [1, 2, 3] [2] 2 := by
   cases links <;> exact ⟨⟨false, rfl⟩, by decide, by decide, by decide, by decide⟩
 
 /-- every cut of the concrete pack, with links: unpacked up to the link, packed afterwards -/
-example : (List.range 19).map (fun cut =>
+example : (List.range 20).map (fun cut =>
     (openDir (image exD0 (exRun true).trace cut)).map (fun o => (o.txns, o.created))) =
     [some ([1, 2, 3], false), some ([1, 2, 3], false), some ([1, 2, 3], false),
      some ([1, 2, 3], false), some ([1, 2, 3], false), some ([1, 2, 3, 4], false),
      some ([1, 2, 3, 4], false), some ([1, 2, 3, 4], false), some ([1, 2, 3, 4], false),
-     some ([1, 2, 3, 4], false),
+     some ([1, 2, 3, 4], false), some ([1, 2, 3, 4], false),
      some ([2, 3, 4], false), some ([2, 3, 4], false), some ([2, 3, 4], false),
      some ([2, 3, 4, 5], false), some ([2, 3, 4, 5], false), some ([2, 3, 4, 5], false),
      some ([2, 3, 4, 5], false), some ([2, 3, 4, 5], false), some ([2, 3, 4, 5], false)] := by
